@@ -163,7 +163,9 @@ class WriterModel:
     def store_metadata(self, meta):
         meta = {s: dict(kv) for s, kv in meta.items() if s != "fmt_tdms"}
         # version branding of the given (or empty) software version, as documented
-        old = meta.get("setup", {}).get("software version", "")
+        # (no version given: the chain already stored in the file is continued)
+        old = meta.get("setup", {}).get("software version", "") \
+            or self.attrs.get("setup:software version", "")
         chain = [v.strip() for v in old.split("|") if v.strip()]
         cur = f"dclab {self.version}"
         if not chain or chain[-1] != cur:
